@@ -531,6 +531,24 @@ def g13(ctx: Ctx):
         for spelled, txt in (("LF", "\n"), ("CR", "\r"), ("CRLF", "\r\n")):
             ok = plus.accepts(txt)
             ctx.ob(f"{name}:{spelled}", ok, "" if ok else f"terminal `{name}` = {pat!r} does not match a {spelled} line end: the same program with {spelled} line ends is refused while its other spellings convert", file=GRAMMAR_REL, line=P.line(name), witness="" if ok else "10 A=1" + txt + "20 B=2")
+    # the visitor's `this node is only layout` test covers every character the separator and the blank can be
+    vm_ = interp(ctx).vm
+    gv = vm_.methods.get("generic_visit")
+    if gv is None:
+        ctx.undecided("generic_visit:layout-test", "no generic_visit", file=PARSER_REL, line=1)
+    else:
+        layout_chars = {" "} | {ch for ch in "\r\n" if any(langs[n_].accepts(ch) for n_ in seps)}
+        strips = [c for c in ast.walk(gv.fn) if isinstance(c, ast.Call) and isinstance(c.func, ast.Attribute) and c.func.attr == "strip" and isinstance(c.func.value, ast.Attribute) and c.func.value.attr == "text"]
+        if not strips:
+            ctx.undecided("generic_visit:layout-test", "the test that recognises layout-only nodes (`node.text.strip() == \"\"`) was not recognised", file=PARSER_REL, line=gv.fn.lineno)
+        for c in strips:
+            if not c.args:
+                ctx.ob("generic_visit:layout-test", True, file=PARSER_REL, line=c.lineno)
+            elif isinstance(c.args[0], ast.Constant) and isinstance(c.args[0].value, str):
+                missing = sorted(layout_chars - set(c.args[0].value))
+                ctx.ob("generic_visit:layout-test", not missing, "" if not missing else f"generic_visit treats a node as layout when `{unparse(c)}` is empty; {missing!r} can be matched by the line-separator / blank terminals but is not stripped: a source with such line ends is rejected by the visitor while its LF spelling converts", file=PARSER_REL, line=c.lineno, witness="" if not missing else "10 A=1\r\n20 B=2\r\n")
+            else:
+                ctx.undecided("generic_visit:layout-test", f"`{unparse(c)}` strips a computed set of characters", file=PARSER_REL, line=c.lineno)
     # every other terminal stops at a line end: a CR or LF inside its match would make the output depend on the line-end convention
     with_eol = Lang.from_regex(r"(?s).*[\r\n].*")
     for name, L_ in sorted(langs.items()):
@@ -602,3 +620,79 @@ def g14(ctx: Ctx):
                     bad = [o for o in ops if o in ("strip", "lstrip", "rstrip", "replace", "lower", "upper", "title", "capitalize", "swapcase", "expandtabs")]
                     ctx.ob(key, not bad, "" if not bad else f"`{meth}` stores the text of `{node.desc}` after {['.' + o + '()' for o in bad]}: blanks (or letters) that are content of the comment / string / DATA item are changed, and two sources that differ in content convert to the same output", file=PARSER_REL, line=getattr(x, "line", 1) or 1)
     ctx.need(n >= 1, "content terminals", "no construct that stores the text of a comment / string / DATA terminal found")
+
+
+# ---------------------------------------------------------------------------
+# G16 SIGN-UNIFORM
+
+
+@rule("G16", "SIGN-UNIFORM: a numeric terminal that takes a leading sign in one of its spellings takes it in all of them (otherwise `-1` is a unary expression whose operand swallows the following AND / OR, while `-1.0` is a literal)", ["C01", "C08"], floor=1)
+def g16(ctx: Ctx):
+    from .peg import GRAMMAR_REL, peg
+
+    P = peg(ctx)
+    shapes = ["1", "12", "1.", "1.5", ".5", "1E5", "1.5E5", "1E+5", "1E-5"]
+    n = 0
+    for name, e in sorted(P.rules.items()):
+        if P.kind(e) != "regex":
+            continue
+        try:
+            L_ = Lang.from_regex(e.re.pattern, e.re.flags)
+        except Exception:
+            continue
+        plain = [s_ for s_ in shapes if L_.accepts(s_)]
+        if len(plain) < 3:
+            continue  # not a general numeric literal
+        for sign in ("-", "+"):
+            signed = [s_ for s_ in plain if L_.accepts(sign + s_)]
+            if not signed:
+                continue
+            n += 1
+            missing = [s_ for s_ in plain if s_ not in signed]
+            ok = not missing
+            ctx.ob(f"{name}:{sign}", ok, "" if ok else f"terminal `{name}` accepts `{sign}{signed[0]}` as one literal but not `{sign}{missing[0]}`: the latter becomes a unary expression, whose operand extends over a following AND / OR / comparison - `A={sign}{missing[0]} AND B` and `A={sign}{signed[0]} AND B` group differently", file=GRAMMAR_REL, line=P.line(name), witness="" if ok else f"10 A={sign}{missing[0]} AND B")
+    ctx.need(n >= 1, "grammar", "no numeric terminal with a leading sign found")
+
+
+# ---------------------------------------------------------------------------
+# G17 TOKEN-BOUNDARY
+
+
+@rule("G17", "TOKEN-BOUNDARY: a variable terminal takes a whole name or nothing: it never stops in front of further name characters or a `$` (the rest would be read as a second variable) - the terminal's own pattern is asked, look-arounds and backtracking included", ["C09", "C01"], floor=2)
+def g17(ctx: Ctx):
+    import re as _re
+
+    from .peg import GRAMMAR_REL, peg
+
+    P = peg(ctx)
+    names = ["A", "Z", "AB", "A1", "ABC", "AB1", "X12"]
+    n = 0
+    for tname, e in sorted(P.rules.items()):
+        if P.kind(e) != "regex":
+            continue
+        pat, fl = e.re.pattern, e.re.flags
+        try:
+            rx = _re.compile(pat, fl)
+        except _re.error:
+            continue
+        num = all(rx.fullmatch(x) for x in ("A", "AB")) and not rx.fullmatch("1") and not rx.fullmatch("A$") and not rx.fullmatch("A B")
+        strv = all(rx.fullmatch(x) for x in ("A$", "AB$")) and not rx.fullmatch("A") and not rx.fullmatch("1$") and not rx.fullmatch('"A$"')
+        if not (num or strv):
+            continue
+        n += 1
+        bad = []
+        for nm in names:
+            if num:
+                m = rx.match(nm + "$")
+                if m is not None:
+                    bad.append(f"`{nm}$` -> `{m.group(0)}` + `{(nm + '$')[m.end():]}`")
+                m2 = rx.match(nm + "=1")
+                if m2 is not None and m2.end() != len(nm):
+                    bad.append(f"`{nm}=1` -> `{m2.group(0)}`")
+            else:
+                m = rx.match(nm + "$=")
+                if m is not None and m.end() != len(nm) + 1:
+                    bad.append(f"`{nm}$` -> `{m.group(0)}`")
+        ok = not bad
+        ctx.ob(f"{tname}", ok, "" if ok else f"terminal `{tname}` stops inside a name: {'; '.join(bad[:3])}: where the grammar tries this terminal first (PRINT items), one source variable is read as two different ones", file=GRAMMAR_REL, line=P.line(tname), witness="" if ok else '10 AB$="X":PRINT AB$')
+    ctx.need(n >= 2, "grammar", f"only {n} variable terminals recognised")
